@@ -242,8 +242,21 @@ pub fn disk_options(path: &Path) -> Options {
     Options { db_path: Some(path.to_path_buf()), ..base_options() }
 }
 
+/// Drive a future to completion by polling with a no-op waker (NOT futures::executor::block_on:
+/// `ingest_efficient` itself calls `futures::executor::block_on` when it has to load column names
+/// after a restart, and nested LocalPool executors panic — recorded as a finding under C11).
+pub fn poll_to_completion<F: std::future::Future>(fut: F) -> F::Output {
+    let mut fut = Box::pin(fut);
+    let waker = futures::task::noop_waker();
+    let mut cx = std::task::Context::from_waker(&waker);
+    loop {
+        if let std::task::Poll::Ready(v) = fut.as_mut().poll(&mut cx) { return v; }
+        std::thread::sleep(Duration::from_millis(1));
+    }
+}
+
 pub fn ingest(db: &LocustDB, batches: &[Batch]) {
-    futures::executor::block_on(db.ingest_efficient(event_buffer(batches)));
+    poll_to_completion(db.ingest_efficient(event_buffer(batches)));
 }
 
 #[derive(Clone, Debug, PartialEq)]
@@ -463,3 +476,4 @@ pub fn gen_floats(rng: &mut Rng, n: usize, class: &str) -> Vec<f64> {
         _ => (0..n).map(|_| f64::from_bits(rng.next())).filter(|f| f.to_bits() != F64_NULL_BITS).chain(std::iter::repeat(1.0)).take(n).collect(),
     }
 }
+pub mod qcommon;
